@@ -110,7 +110,55 @@ def spec_class(spec):
     return f"{spec[0]},{'c' if spec[2] else 'r'}"
 
 
+def run_large(case, seed):
+    """beyond the automatic switch (1001 x 1001) Auto() selects Lanczos for svd and CG for pinv: identity plus rank 3 given by its matmat"""
+    from mc import large
+    _, what, algname = case
+    n = 1001
+    mm, Ul, Wl = large.lowrank_identity(seed, n, False, "c16")
+    M = np.eye(n) + Ul @ Wl.T
+    A = ops.LinearOperator(np.float64, (n, n), matmat=mm)
+    # the adjoint product is needed by both routes: give the generic operator its exact left product through a Dense-free rmatmat
+    A._rmatmat = lambda X: X + (X @ Ul) @ Wl.T
+    vio = []
+
+    def bad(sym, detail):
+        vio.append({"key": f"C16|large-operator|{what}|{sym}|{algname}", "what": f"{what} on a 1001 x 1001 operator with {algname}: {sym}", "detail": detail})
+
+    with warnings.catch_warnings():
+        warnings.simplefilter("ignore")
+        try:
+            if what == "svd":
+                sv = np.linalg.svd(M, compute_uv=False)
+                for k in (1, 2):
+                    U, S, V = svd(A, k, "LM") if algname == "omitted" else svd(A, k, "LM", L.Auto())
+                    Ud, Sd, Vd = np.asarray(U.to_dense()), np.asarray(S.to_dense()), np.asarray(V.to_dense())
+                    s_ = np.sort(np.abs(np.diag(Sd)))[::-1]
+                    if Sd.shape != (k, k) or Ud.shape != (n, k) or Vd.shape != (n, k):
+                        bad("shape", {"U": list(Ud.shape), "S": list(Sd.shape), "V": list(Vd.shape), "k": k})
+                    elif np.max(np.abs(s_ - sv[:k])) > 1e-5 * sv[0]:
+                        bad("not-the-requested-singular-values", {"got": s_.tolist(), "want": sv[:k].tolist(), "k": k})
+                    elif np.max(np.abs(Ud.conj().T @ Ud - np.eye(k))) > 1e-6 or np.max(np.abs(Vd.conj().T @ Vd - np.eye(k))) > 1e-6:
+                        bad("factors-not-orthonormal", {"k": k})
+                    elif np.max(np.abs(M @ Vd - Ud @ Sd)) > 1e-4 * sv[0]:
+                        bad("A-V-is-not-U-Sigma", {"err": float(np.max(np.abs(M @ Vd - Ud @ Sd))), "k": k})
+            else:
+                g = P.rng(seed, "c16largeb")
+                b = g.standard_normal((n, 2))
+                Ap = L.pinv(A) if algname == "omitted" else L.pinv(A, L.Auto())
+                x = np.asarray(Ap @ b)
+                want = np.linalg.solve(M, b)
+                err = float(np.linalg.norm(x - want) / np.linalg.norm(want)) if x.shape == want.shape else np.inf
+                if not np.isfinite(err) or err > 1e-4:
+                    bad("not-the-least-squares-solution", {"rel_err": err})
+        except Exception as e:
+            bad(f"exc:{type(e).__name__}", {"msg": str(e)[:300]})
+    return {"states": 1, "transitions": 3, "outcome": f"large:{what}:{len(vio)}", "violations": vio}
+
+
 def run_case(case, seed):
+    if case[0] == "LARGE":
+        return run_large(case, seed)
     if case[0] == "pinv":
         return run_pinv(case, seed)
     _, spec, algname = case
@@ -249,6 +297,9 @@ def cases(tier, seed):
     for sp in specs + pstruct:
         for a in PINV_ALGS:
             out.append(["pinv", sp, a])
+    for what in ("svd", "pinv"):
+        for a in (("omitted", ) if tier == "quick" else ("omitted", "Auto")):
+            out.append(["LARGE", what, a])
     tf = term_family(tier)
     for t in tf:
         for a in SVD_ALGS:
@@ -260,12 +311,14 @@ def cases(tier, seed):
 
 
 def case_signature(case):
+    if case[0] == "LARGE":
+        return ",".join(map(str, case))
     return f"{case[0]},{spec_class(case[1])},{case[2]}"
 
 
 def describe(tier, seed):
     return {
-        "bound": "m x n in {1..5}^2 plus 8x3, 3x8 (four shapes also at scale 2^-45 and 2^40)" + (", 6x6, 9x2, 2x9, 12x7, 7x12, 16x15, 20x20, 30x5, 5x30" if tier == "thorough" else "") + ", real and complex, prescribed singular "
+        "bound": "a 1001 x 1001 identity-plus-rank-3 operator beyond the automatic switch (svd k = 1, 2 and pinv with the default algorithm); m x n in {1..5}^2 plus 8x3, 3x8 (four shapes also at scale 2^-45 and 2^40)" + (", 6x6, 9x2, 2x9, 12x7, 7x12, 16x15, 20x20, 30x5, 5x30" if tier == "thorough" else "") + ", real and complex, prescribed singular "
                  "values; self-adjoint dense operators (indefinite with the dominant singular value from a negative eigenvalue, definite; declared SelfAdjoint / PSD / undeclared); Identity, Diagonal (negative / complex entries), ScalarMul, Permutation; operator terms of every kind (invertible family + rectangular Dense / Generic / Sparse / Concatenated / Sliced leaves, "
                  "depth-1 nesting with T, H, scalar, no_dispatch, +, @, kron, BlockDiag); svd: ALL 1<=k<=min(m,n) x {LM, SM} x {omitted, Auto, "
                  "DenseSVD, Lanczos}; pinv: {omitted, Auto, LSTSQ, CG} x right-hand sides {1-D, 2 columns, complex, inconsistent (tall)}",
